@@ -101,3 +101,164 @@ Theorem bit_writer_alone_can_report_false_success_after_short_write :
   pack false (val_bits 56 0x07060504030201) = [1; 2; 3; 4; 5; 6; 7].
 Proof. exact false_success_after_short_write. Qed.
 Print Assumptions bit_writer_alone_can_report_false_success_after_short_write.
+
+(* ------------------------------------------------------------------------------------------ *)
+(* bzip2.Writer at implementation level (Bzip2/WriterImpl.v: the real call structure of
+   writer.go OVER the implementation-level bit writer Prefix/WriterImpl.v and a scripted sink;
+   validated per call against the real Writer, check WBZW), for EVERY history of Write / Close /
+   Reset and EVERY sink script (which calls fail, with which short counts).                     *)
+From V Require Import Prefix.WriterFields Prefix.WriterFieldsThms Bzip2.SpecW Bzip2.WriterImpl
+  Bzip2.WriterImplSpec Bzip2.WriterImplThms.
+
+(* no call ends in a run-time panic; after EVERY call OutputOffset = bytes the sink in use has
+   accepted, InputOffset = sum of the counts Write returned since the last Reset *)
+Theorem bzip2_writer_offsets_and_no_panic : forall level, 1 <= level -> forall ops st,
+  Bzip2.WriterImplThms.Reach level st ->
+  let '(obs, st') := zrun st ops in
+  Bzip2.WriterImplThms.Reach level st' /\ length obs = length ops /\
+  Forall (fun ob => o_ret ob <> ZRPanic /\
+                    o_out ob = Z.of_nat (length (wsink_data (o_sink ob)))) obs /\
+  in_ok (z_in st) ops obs.
+Proof. exact zrun_offsets. Qed.
+Print Assumptions bzip2_writer_offsets_and_no_panic.
+
+(* the latch: ANY state whose err is a failure answers every Write / Close with it, makes no
+   sink call and changes nothing *)
+Theorem bzip2_writer_latch : forall st o e, z_err st = Some e -> e <> EClosed -> no_reset o ->
+  zstep st o = (match o with ZWrite _ => ZRWrite 0 (Some e) | _ => ZRClose (Some e) end, st).
+Proof. exact zstep_latched. Qed.
+Print Assumptions bzip2_writer_latch.
+
+Theorem bzip2_writer_error_sets_latch : forall level, 1 <= level -> forall st o e,
+  Bzip2.WriterImplThms.Reach level st -> no_reset o ->
+  ret_err (fst (zstep st o)) = Some e -> e <> EClosed -> z_err (snd (zstep st o)) = Some e.
+Proof. exact error_sets_latch. Qed.
+Print Assumptions bzip2_writer_error_sets_latch.
+
+(* the call during which the sink fails returns the error of the first failed sink call (at
+   most two more sink calls follow it, inside that call); otherwise nil *)
+Theorem bzip2_writer_sink_error_reported : forall level, 1 <= level -> forall st o,
+  Bzip2.WriterImplThms.Reach level st -> no_reset o -> z_err st = None ->
+  exists l', calls (zsink st) l' (zsink (snd (zstep st o))) /\
+             StepRep (fst (zstep st o)) (snd (zstep st o)) l'.
+Proof. exact sink_error_reported. Qed.
+Print Assumptions bzip2_writer_sink_error_reported.
+
+(* Close = nil only if the sink never failed, and then the sink holds bzip2_encode of the data *)
+Theorem bzip2_writer_closed_stream : forall level, 1 <= level -> forall script rest ds tail,
+  Forall no_reset tail ->
+  let s0 := new_sink script rest in
+  let st' := snd (zrun (znew level s0) (map ZWrite ds ++ ZClose :: tail)) in
+  z_err st' = Some EClosed ->
+  wsink_data (zsink st') = bzip2_encode level (concat ds) /\
+  exists l, calls s0 l (zsink st') /\ Forall beh_accepts l.
+Proof. exact closed_stream_is_bzip2_encode. Qed.
+Print Assumptions bzip2_writer_closed_stream.
+
+Theorem bzip2_writer_close_nil_closes : forall level, 1 <= level -> forall st,
+  Bzip2.WriterImplThms.Reach level st ->
+  fst (zstep st ZClose) = ZRClose None -> z_err (snd (zstep st ZClose)) = Some EClosed.
+Proof. exact close_nil_closes. Qed.
+Print Assumptions bzip2_writer_close_nil_closes.
+
+(* the bytes accepted up to and including the first failed sink call are a prefix of the
+   output of the same history over a sink that never fails (NOT the bytes after it: see
+   Bzip2/WriterImplExamples.v bytes_after_the_failure_are_not_a_continuation) *)
+Theorem bzip2_writer_prefix_at_failure : forall level, 1 <= level -> forall script rest ops,
+  Forall no_reset ops ->
+  let s0 := new_sink script rest in
+  let st' := snd (zrun (znew level s0) ops) in
+  let good := wsink_data (zsink (snd (zrun (znew level (new_sink [] SAccept)) ops))) in
+  (forall t, z_err st' = Some (ESrc t) ->
+     exists l1 k l2,
+       calls s0 (l1 ++ SFail k t :: l2) (zsink st') /\ Forall beh_accepts l1 /\ (length l2 <= 2)%nat /\
+       prefix_of (accepted_upto (zsink st') (S (length l1))) good) /\
+  (z_err st' = None \/ z_err st' = Some EClosed ->
+     wsink_data (zsink st') = good /\
+     exists l, calls s0 l (zsink st') /\ Forall beh_accepts l).
+Proof. exact prefix_at_failure. Qed.
+Print Assumptions bzip2_writer_prefix_at_failure.
+
+(* Reset on ANY Writer value behaves as NewWriter *)
+Theorem bzip2_writer_reset_as_new : forall st script rest ops,
+  zrun (zreset st (new_sink script rest)) ops = zrun (znew (z_level st) (new_sink script rest)) ops.
+Proof. exact reset_behaves_as_new. Qed.
+Print Assumptions bzip2_writer_reset_as_new.
+
+(* ------------------------------------------------------------------------------------------ *)
+(* meta.Writer at implementation level (Meta/WriterImpl.v over the implementation-level bit
+   writer and a scripted sink; validated per call against the real Writer, check WMETAW), for
+   EVERY history of Write / Close(FinalMode) / Reset and EVERY sink script.                     *)
+From V Require Meta.Model Meta.WriterImpl Meta.WriterImplSpec Meta.WriterImplBits Meta.WriterImplThms.
+
+Module MetaWriterC13.
+Import Meta.Model Meta.WriterImpl Meta.WriterImplSpec Meta.WriterImplBits Meta.WriterImplThms.
+
+(* no run-time panic, no "block too large", only nil / errClosed / the sink's error are ever
+   returned; OutputOffset = bytes the sink accepted, NumBlocks = successful sink calls,
+   InputOffset = sum of the counts Write returned since the last Reset: after EVERY call *)
+Theorem meta_writer_offsets_and_no_panic : forall script rest ops,
+  let obs := mrun_new script rest ops in
+  length obs = length ops /\ obs_ok (new_sink script rest) 0 ops obs.
+Proof. exact mrun_new_offsets. Qed.
+
+Theorem meta_writer_latch : forall st o e, m_err st = Some e -> e <> EClosed -> no_reset o ->
+  mstep st o = (match o with MWrite _ => MRWrite 0 (Some e) | _ => MRClose (Some e) end, st).
+Proof. exact mstep_latched. Qed.
+
+Theorem meta_writer_error_sets_latch : forall st o e, Reach st -> no_reset o ->
+  ret_err (fst (mstep st o)) = Some e -> e <> EClosed -> m_err (snd (mstep st o)) = Some e.
+Proof. exact error_sets_latch. Qed.
+
+(* the call during which the sink call fails returns that error; it is the last sink call *)
+Theorem meta_writer_sink_error_reported : forall st o, Reach st -> no_reset o -> m_err st = None ->
+  exists l', calls (m_sink st) l' (m_sink (snd (mstep st o))) /\
+             StepRep (fst (mstep st o)) (snd (mstep st o)) l' /\
+             m_in (snd (mstep st o)) = (m_in st + Z.of_nat (ret_n (fst (mstep st o))))%Z.
+Proof. exact sink_error_reported. Qed.
+
+(* Close = nil only by closing; a closed stream is meta_encode of everything Write accepted *)
+Theorem meta_writer_close_nil_closes : forall st mode, Reach st ->
+  fst (mstep st (MClose mode)) = MRClose None -> m_err (snd (mstep st (MClose mode))) = Some EClosed.
+Proof. exact close_nil_closes. Qed.
+
+Theorem meta_writer_closed_stream : forall script rest pre ds mode tail,
+  fresh_prefix pre -> Forall no_reset tail ->
+  let s0 := new_sink script rest in
+  let st' := snd (mrun (mnew s0) (pre ++ map MWrite ds ++ MClose mode :: tail)) in
+  m_err st' = Some EClosed ->
+  meta_encode (concat ds) mode = Some (wsink_data (m_sink st')) /\
+  m_in st' = Z.of_nat (length (concat ds)) /\
+  m_nblocks st' = Z.of_nat (length (writer_blocks (concat ds) [])) /\
+  exists l', calls (last_sink s0 pre) l' (m_sink st') /\ Forall beh_accepts l'.
+Proof. exact closed_stream_is_meta_encode. Qed.
+
+(* the WHOLE sink contents are always a prefix of the fault-free output of the same history *)
+Theorem meta_writer_prefix_always : forall script rest ops,
+  let s0 := new_sink script rest in
+  let st' := snd (mrun (mnew s0) ops) in
+  let good := wsink_data (m_sink (snd (mrun (mnew (new_sink [] SAccept)) (map ff_op ops)))) in
+  prefix_of (wsink_data (m_sink st')) good /\
+  (m_err st' = None \/ m_err st' = Some EClosed ->
+     wsink_data (m_sink st') = good /\
+     exists l, calls (last_sink s0 ops) l (m_sink st') /\ Forall beh_accepts l) /\
+  (forall t, m_err st' = Some (ESrc t) ->
+     exists l1 k, calls (last_sink s0 ops) (l1 ++ [SFail k t]) (m_sink st') /\ Forall beh_accepts l1).
+Proof. exact prefix_always. Qed.
+
+(* Reset on ANY Writer value behaves as NewWriter (the states differ at most in the temporary
+   bit writer, which encodeBlock re-initialises) *)
+Theorem meta_writer_reset_as_new : forall st script rest ops,
+  let s := new_sink script rest in
+  fst (mrun (mreset st s) ops) = fst (mrun (mnew s) ops) /\
+  exists q, snd (mrun (mreset st s) ops) = with_bw (snd (mrun (mnew s) ops)) q.
+Proof. exact reset_behaves_as_new. Qed.
+End MetaWriterC13.
+Print Assumptions MetaWriterC13.meta_writer_offsets_and_no_panic.
+Print Assumptions MetaWriterC13.meta_writer_latch.
+Print Assumptions MetaWriterC13.meta_writer_error_sets_latch.
+Print Assumptions MetaWriterC13.meta_writer_sink_error_reported.
+Print Assumptions MetaWriterC13.meta_writer_close_nil_closes.
+Print Assumptions MetaWriterC13.meta_writer_closed_stream.
+Print Assumptions MetaWriterC13.meta_writer_prefix_always.
+Print Assumptions MetaWriterC13.meta_writer_reset_as_new.
